@@ -98,8 +98,7 @@ impl<'a> TryFrom<String> for CharacterString<'a> {
 
 impl<'a> Display for CharacterString<'a> {
     fn fmt(&self, f: &mut std::fmt::Formatter<'_>) -> std::fmt::Result {
-        let s = std::str::from_utf8(&self.data).unwrap();
-        f.write_str(s)
+        f.write_str(&String::from_utf8_lossy(&self.data))
     }
 }
 
